@@ -172,6 +172,28 @@ pub fn case(t: &[u8], refs: &Refs, out: &mut Vec<Violation>) -> u64 {
 			if b.as_str().as_bytes() != t || o.as_str().as_bytes() != t {
 				probs.push(("text".into(), "the value does not hold the input text".into()));
 			}
+			{
+				// every other view of the same value holds the same text
+				use std::borrow::Borrow;
+				let views: [(&str, &[u8]); 8] = [
+					("DataUrl::as_uri", b.as_uri().as_bytes()),
+					("DataUrl: Deref<Target = Uri>", (**b).as_bytes()),
+					("AsRef<DataUrl> for DataUrl", AsRef::<DataUrl>::as_ref(b).as_str().as_bytes()),
+					("AsRef<Uri> for DataUrl", AsRef::<iref::Uri>::as_ref(b).as_bytes()),
+					("Borrow<DataUrl> for DataUrlBuf", Borrow::<DataUrl>::borrow(&o).as_str().as_bytes()),
+					("AsRef<DataUrl> for DataUrlBuf", AsRef::<DataUrl>::as_ref(&o).as_str().as_bytes()),
+					("AsRef<Uri> for DataUrlBuf", AsRef::<iref::Uri>::as_ref(&o).as_bytes()),
+					("DataUrlBuf::as_data_url", o.as_data_url().as_str().as_bytes()),
+				];
+				for (name, got) in views {
+					if got != t {
+						probs.push((format!("view:{name}"), format!("{:?}", lossy(got))));
+					}
+				}
+				if b.scheme().as_bytes() != b"data" {
+					probs.push(("view:scheme through Deref".into(), format!("{:?}", lossy(b.scheme().as_bytes()))));
+				}
+			}
 			let bv = borrowed_views(b);
 			let ov = owned_views(&o);
 			let dv = borrowed_views(&o); // owned seen through Deref<Target = DataUrl>
